@@ -161,7 +161,7 @@ class Top:
         if isinstance(v, int):
             return ("Z", "(TZc (%d))" % v)
         if isinstance(v, float):
-            seg = (ast.get_source_segment(self.src, node) or repr(v)).replace("_", "")
+            seg = ((ast.get_source_segment(self.src, node) if self.src else None) or repr(v)).replace("_", "")
             fr = Fraction(seg)
             return ("C", "(TQ (%d) (%d))" % (fr.numerator, fr.denominator))
         _err(node, "literal outside the accepted fragment")
@@ -719,9 +719,8 @@ def elide(tree):
     import py2coq
     import py2coq_kernel
     fn = py2coq.find_function(tree, SST)
-    src = ast.unparse(tree)
     _, block = py2coq_kernel.find_mean_block(fn)
-    top = Top(fn, src, _slice_map(fn), {id(s): k for k, s in enumerate(block)})
+    top = Top(fn, None, _slice_map(fn), {id(s): k for k, s in enumerate(block)})
     out = {}
     orig_count = top.count
     current = []
